@@ -19,7 +19,7 @@ def gen(rng, i, tier):
     c["fseed"] = None
     c["take"] = None
     mode = rng.choice(["filter", "filter", "merge", "merge", "both"])
-    if not B.enabled("C12-F5") :
+    if not (B.enabled("C12-F5") and B.enabled("C12-F6")):
         mode = "filter"
     if mode in ("filter", "both"):
         c["filter"] = E.gen_filter(rng)
@@ -45,12 +45,12 @@ def check(case, M):
     fid = B.finding_of(case, r, "C12")
     merged_any = any(a[0] == "merge" for a in r["script"])
 
-    def fail(kind, what, detail):
+    def fail(kind, what, detail, cls="other"):
         if any(g["what"] == what for g in failures):
             return
         f = {"kind": kind, "what": what, "detail": detail}
-        if fid:
-            f["finding"] = fid
+        if fid and fid.get(cls):
+            f["finding"] = fid[cls]
         failures.append(f)
     common_failures(case, r, failures)
     pred = r["pred"] or (lambda t: True)
@@ -59,7 +59,7 @@ def check(case, M):
     accepted = {E.show(p) for p in lang if pred(p)}
     strict = {E.show(p) for p in lang if all(pred(s) for s in E.subterms(p))}
     if r["err"] is not None:
-        fail("oracle", "the enumerator raises instead of enumerating", r["err"])
+        fail("oracle", "the enumerator raises instead of enumerating", r["err"], "lost" if case.get("merges") else "other")
     else:
         if not r["steps"] or not r["steps"][-1][1]:
             fail("oracle", "the enumerator does not stop", "")
@@ -84,14 +84,14 @@ def check(case, M):
                     st = next(it, ([], True))
                     for p in st[0]:
                         if any(contains(p, o) for o in merged):
-                            fail("oracle", "a program containing a merged program is yielded after the merge", f"{E.show(p)} contains one of {[E.show(o) for o in merged]}")
+                            fail("oracle", "a program containing a merged program is yielded after the merge", f"{E.show(p)} contains one of {[E.show(o) for o in merged]}", "contains")
                         seen.append(E.show(p))
                 else:
                     merged.append(act[1])
             final_owed = {E.show(p) for p in lang if E.show(p) in strict and not any(contains(p, o) for o in merged)}
             miss = sorted(final_owed - set(seen))
             if miss:
-                fail("oracle", "a program that contains no merged program is never yielded", f"{len(miss)} e.g. {miss[:3]}")
+                fail("oracle", "a program that contains no merged program is never yielded", f"{len(miss)} e.g. {miss[:3]}", "lost")
     tags = B.base_tags(case, r)
     if case.get("filter"):
         tags.append("filter:" + case["filter"]["kind"])
